@@ -2,6 +2,7 @@ package pathdbsim
 
 import (
 	"bytes"
+	"errors"
 	"encoding/binary"
 	"fmt"
 	"os"
@@ -56,6 +57,49 @@ type runner struct {
 	recStarted, recDone  uint64 // Recover calls started / finished (historical readers)
 	recoverWhileIndexing bool   // a Recover ran while the initial index run was unfinished
 	elementless          bool   // a flattened trienode history had no index elements
+
+	// per root: intervals [t0,t1] (harness ticks, t1 == 0: still running) of the
+	// operations that flattened the root itself into the disk layer / that turned
+	// it into a fork child of the flattened layer (re-linked by a loop in cap)
+	baseIv, forkIv map[common.Hash][]*opIv
+}
+
+type opIv struct{ t0, t1 uint64 }
+
+func overlapsIv(ivs []*opIv, inv, ret uint64) bool {
+	for _, iv := range ivs {
+		if iv.t0 <= ret && (iv.t1 == 0 || iv.t1 >= inv) {
+			return true
+		}
+	}
+	return false
+}
+
+// noteIntervals records, for an operation that starts at tick t0, which roots it
+// flattens into the disk layer and which become fork children of the flattened
+// layer (call with rn.mu held, after the model has been advanced).
+func (rn *runner) noteIntervals(t0 uint64, flat []common.Hash, preOrphan map[common.Hash]bool) {
+	if rn.baseIv == nil {
+		rn.baseIv, rn.forkIv = map[common.Hash][]*opIv{}, map[common.Hash][]*opIv{}
+	}
+	for _, r := range flat {
+		rn.baseIv[r] = append(rn.baseIv[r], &opIv{t0: t0})
+	}
+	for r, l := range rn.m.layers {
+		if l.orphan && !preOrphan[r] {
+			rn.forkIv[r] = append(rn.forkIv[r], &opIv{t0: t0})
+		}
+	}
+}
+
+func (rn *runner) orphanSet() map[common.Hash]bool {
+	out := map[common.Hash]bool{}
+	for r, l := range rn.m.layers {
+		if l.orphan {
+			out[r] = true
+		}
+	}
+	return out
 }
 
 type recoverRec struct {
@@ -250,6 +294,13 @@ func (rn *runner) endMut(t0 uint64) {
 	rn.tick++
 	t1 := rn.tick
 	rn.opDone++
+	for _, m := range []map[common.Hash][]*opIv{rn.baseIv, rn.forkIv} {
+		for _, ivs := range m {
+			if iv := ivs[len(ivs)-1]; iv.t0 == t0 && iv.t1 == 0 {
+				iv.t1 = t1
+			}
+		}
+	}
 	for _, ls := range rn.lives {
 		l := ls[len(ls)-1]
 		if l.addStart == t0 && l.addEnd == 0 {
@@ -438,12 +489,14 @@ func (rn *runner) update(pst, child *state) *simcore.Violation {
 	nodes, states := transition(pst, child, rn.p.K.RawKeys, rn.p.K.TrienodeHistory >= 0)
 	rn.mu.Lock()
 	pre := liveSet(rn.m)
+	preOrphan := rn.orphanSet()
 	outcome, flat := rn.m.update(child.root, pst.root)
 	if outcome == updAdded {
 		rn.parentOf[child.root] = pst.root
 	}
 	rn.noteFlattened(flat)
 	t0 := rn.beginMut(pre)
+	rn.noteIntervals(t0, flat, preOrphan)
 	rn.block++
 	block := rn.block
 	rn.mu.Unlock()
@@ -512,6 +565,7 @@ func (rn *runner) commit(sel int) *simcore.Violation {
 		rn.noteFlattened(flat)
 	}
 	t0 := rn.beginMut(pre)
+	rn.noteIntervals(t0, flat, rn.orphanSet())
 	rn.mu.Unlock()
 
 	var err error
@@ -606,6 +660,18 @@ type rlpReader interface {
 	AccountRLP(hash common.Hash) ([]byte, error)
 	Storage(accountHash, storageHash common.Hash) ([]byte, error)
 }
+
+// errStaleSentinel returns err itself when it is pathdb's "layer stale" error
+// (unexported there), so that errors.Is(err, errStaleSentinel(err)) is a cheap
+// "is it the stale error" test; anything else yields a value errors.Is rejects.
+func errStaleSentinel(err error) error {
+	if err != nil && strings.Contains(err.Error(), "layer stale") {
+		return err
+	}
+	return errNotStale
+}
+
+var errNotStale = errors.New("not the stale error")
 
 func eq(a, b []byte) bool { return bytes.Equal(a, b) }
 
@@ -855,7 +921,15 @@ func (rn *runner) read(actor string, rd Read, certain bool) *simcore.Violation {
 	overlapped := rn.opStarted != doneAtInv
 	// (a sweep by a reader actor uses one reader object across many gated reads: it
 	// is a held reader)
-	mustSucceed := live && !((rd.Held || isIter || rd.Kind == 3) && overlapped)
+	//
+	// A held point reader is excused only when its OWN root was flattened into the
+	// disk layer during its lifetime (the layer object it captured then hangs off
+	// the stale disk layer; callers are expected to re-open). A held reader at a
+	// root that stays a diff layer must keep working across a cap below it: cap
+	// holds diff.lock from before the flatten until the new parent is linked.
+	ownFlattened := overlapsIv(rn.baseIv[root], inv, ret)
+	forkChild := overlapsIv(rn.forkIv[root], inv, ret)
+	mustSucceed := live && !(isIter && overlapped) && !((rd.Held || rd.Kind == 3) && ownFlattened)
 	kindName := [...]string{"account", "slot", "node", "sweep", "account-iterator", "storage-iterator", "binary-account-iterator", "binary-storage-iterator"}[rd.Kind]
 	where := fmt.Sprintf("%s read (%s) at state #%d root %x (live=%v dead=%v held=%v)", actor, kindName, st.idx, root[:4], live, dead, rd.Held)
 
@@ -887,7 +961,21 @@ func (rn *runner) read(actor string, rd Read, certain bool) *simcore.Violation {
 		}
 		if o.err != nil {
 			sum = sum.String("E")
-			if mustSucceed && orphan && len(o.what) > 4 && o.what[:4] == "node" {
+			if mustSucceed && forkChild && errors.Is(o.err, errStaleSentinel(o.err)) {
+				// The root is a fork child of the layer that an overlapping cap was
+				// flattening: cap holds only the capped path's diff.lock across
+				// parent.persist(); the other children of the flattened layer are
+				// re-linked afterwards, so a reader walking down from one of them in
+				// between reaches the already-stale old disk layer.
+				rn.mu.Unlock()
+				v := rn.keyed("live-root-unreadable", "cap-relink-window:fork-sibling-read", false, "%s: %s failed: %v. The root stayed in the layer tree for the whole read; it is a fork child of the layer an overlapping cap flattened (triedb/pathdb/layertree.go cap: only diff.lock of the capped path is held across parent.persist(), the sibling re-link loop runs after it)", where, o.what, o.err)
+				rn.mu.Lock()
+				if v != nil {
+					return v
+				}
+				continue
+			}
+			if mustSucceed && orphan && !forkChild && len(o.what) > 4 && o.what[:4] == "node" {
 				rn.mu.Unlock()
 				v := rn.finding("node-read", "%s: %s failed: %v. The root is in the layer tree, but the layer was a fork child of a layer that got flattened: its parent pointer still leads to the stale pre-flatten disk layer, so every node not written by the fork itself is unreadable", where, o.what, o.err)
 				rn.mu.Lock()
